@@ -204,7 +204,7 @@ func errorDiscipline(r *Run, p *Prog, T *Terms, rule string, fns []*ssa.Function
 						if !ok {
 							continue
 						}
-						if nm := calleeName(ci.Common()); nm == "os.Exit" || strings.HasPrefix(nm, "log.Fatal") {
+						if nm := calleeName(ci.Common()); nm == "os.Exit" || strings.HasPrefix(nm, "log.Fatal") || nm != "os.Exit" && endsProcess(ci, 0) && ci.Common().StaticCallee() != nil && len(ci.Common().StaticCallee().Blocks) > 0 {
 							// (exit code 0 after success is an ordinary end)
 							if nm == "os.Exit" && len(ci.Common().Args) == 1 {
 								if k, isK := ci.Common().Args[0].(*ssa.Const); isK && k.Int64() == 0 {
@@ -400,11 +400,54 @@ func errNilOnEveryPath(p *Prog, T *Terms, f *ssa.Function, c *ssa.Call, use ssa.
 		if !ok {
 			return false
 		}
-		switch nm := calleeName(ci.Common()); {
-		case nm == "os.Exit", strings.HasPrefix(nm, "log.Fatal"), strings.HasPrefix(nm, "log.Panic"), nm == "runtime.Goexit":
-			return true
-		}
-		return false
+		return endsProcess(ci, 0)
 	}, func(x, y *ssa.BasicBlock) bool { return errKnownNil(p, T, T.edgeFactsOn(x, y), eT) })
 	return !reach
+}
+
+// endsProcess: the call does not return - os.Exit, log.Fatal*, log.Panic*, runtime.Goexit, or a function of the
+// repository every return of which is dominated by such a call or a panic (`func fatalf(...) { ...; os.Exit(1) }`).
+func endsProcess(ci ssa.CallInstruction, depth int) bool {
+	switch nm := calleeName(ci.Common()); {
+	case nm == "os.Exit", strings.HasPrefix(nm, "log.Fatal"), strings.HasPrefix(nm, "log.Panic"), nm == "runtime.Goexit":
+		return true
+	}
+	g := ci.Common().StaticCallee()
+	if g == nil || len(g.Blocks) == 0 || depth > 2 {
+		return false
+	}
+	var ends []*ssa.BasicBlock
+	for _, b := range g.Blocks {
+		for _, in := range b.Instrs {
+			switch x := in.(type) {
+			case *ssa.Panic:
+				ends = append(ends, b)
+			case ssa.CallInstruction:
+				if _, isDefer := x.(*ssa.Defer); !isDefer && endsProcess(x, depth+1) {
+					ends = append(ends, b)
+				}
+			}
+		}
+	}
+	if len(ends) == 0 {
+		return false
+	}
+	for _, b := range g.Blocks {
+		if len(b.Instrs) == 0 {
+			continue
+		}
+		if _, isRet := b.Instrs[len(b.Instrs)-1].(*ssa.Return); !isRet {
+			continue
+		}
+		dominated := false
+		for _, e := range ends {
+			if e == b || e.Dominates(b) {
+				dominated = true
+			}
+		}
+		if !dominated {
+			return false
+		}
+	}
+	return true
 }
